@@ -10,6 +10,7 @@ Vocabulary of a CASE record (see the Doc*.tla modules):
 """
 from __future__ import annotations
 
+import inspect
 import random
 import re
 import signal
@@ -90,6 +91,9 @@ class Parents:
     def build(self):
         self.mod = self.griffe.visit("m", filepath=Path("m.py"), code=self.source)
         self.amod = self.griffe.visit("am", filepath=Path("am.py"), code=ALIAS_SOURCE)
+        # a hand-built, detached object: a function named __init__ that has no parent at all
+        g = self.griffe
+        self.detached = g.Function("__init__", parameters=g.Parameters(g.Parameter("self"), g.Parameter("a", annotation="int", default="1")), returns="None")
         self.baseline = self.project()
 
     def get(self, kind: str):
@@ -97,6 +101,8 @@ class Parents:
             return None
         if kind == "aliasmod":
             return self.amod
+        if kind == "detachedinit":
+            return self.detached
         path = self.paths[kind]
         return self.mod if path is None else self.mod[path]
 
@@ -121,6 +127,8 @@ class Parents:
         walk(self.mod)
         walk(self.amod)
         out.append(tuple((n, m.target_path, m._target is None) for n, m in self.amod.members.items() if m.is_alias))
+        d = self.detached
+        out.append((d.name, d.parent is None, tuple((q.name, str(q.annotation), str(q.default)) for q in d.parameters), str(d.returns), tuple(d.members), d.docstring is None))
         return tuple(out)
 
     def changed(self) -> bool:
@@ -341,7 +349,10 @@ def real_parse(griffe, parents: Parents, style: str, text: str, parent_kind: str
     shared = dict(SHARED_OPTIONS)
     # configured with another style than the one it is parsed with: parse(style, ...) must not touch the configuration
     configured = "sphinx" if style != "sphinx" else "google"
-    d = griffe.Docstring(text, lineno=1, endlineno=1 + text.count("\n"), parent=parent, parser=configured, parser_options=shared)
+    # the source whose cleaned value is `text`: the text itself, or - when its first line is the only unindented one / is indented -
+    # the text after a line break (cleandoc then removes the common indentation of ALL lines and drops the empty first line)
+    source = text if inspect.cleandoc(text.rstrip()) == text else "\n" + text
+    d = griffe.Docstring(source, lineno=1, endlineno=1 + source.count("\n"), parent=parent, parser=configured, parser_options=shared)
     out = {"exc": None, "excobj": None, "frames": None, "sections": None, "modified": None, "unstable": d.value != text, "value": d.value}
     before_parent_ok = True
     before = docstring_snapshot(d)
@@ -365,7 +376,7 @@ def real_parse(griffe, parents: Parents, style: str, text: str, parent_kind: str
             out["modified"] = f"a second parse of the same docstring with the same options returned {got}, not what the first returned"
         elif history > 1:
             plain, exc3 = guarded_confirmed(lambda: d.parse(style), timeout)
-            fresh = griffe.Docstring(text, lineno=1, endlineno=1 + text.count("\n"), parent=parent, parser=configured, parser_options=dict(SHARED_OPTIONS))
+            fresh = griffe.Docstring(source, lineno=1, endlineno=1 + text.count("\n"), parent=parent, parser=configured, parser_options=dict(SHARED_OPTIONS))
             ref, exc4 = guarded_confirmed(lambda: fresh.parse(style), timeout)
             if (exc3 is None) != (exc4 is None) or (exc3 is None and flat(plain) != flat(ref)):
                 out["modified"] = "parse() with the configured options depends on the options of an earlier parse(**options) of the same docstring"
